@@ -160,7 +160,8 @@ Print Assumptions C09_no_send_on_closed_partial.
 Theorem C09_panic_needs_closed_channel : forall s i s',
   step op template s i = Some s' -> panicked op s = false -> panicked op s' = true ->
   exists t c r, nth_error (threads op s) i = Some t /\
-    (rest op t = Send op c :: r \/ rest op t = CloseCh op c :: r) /\ chan_closed op s c = true.
+    (rest op t = Send op c :: r \/ rest op t = CloseCh op c :: r \/
+     exists x, rest op t = SendIfOpen op x c :: r /\ flag_set op s x = false) /\ chan_closed op s c = true.
 Proof. exact send_panics_only_if_closed. Qed.
 Print Assumptions C09_panic_needs_closed_channel.
 
